@@ -22,8 +22,10 @@ func compileOptimized(s string, re *syntax.Regexp) Pattern {
 		return re.Op == syntax.OpStar && re.Sub[0].Op == syntax.OpAnyCharNotNL
 	}
 	// "literal"
+	// A case-folded literal, like `(?i)foo` or `[Ff]`, can't be matched
+	// with the strings/bytes functions: they compare bytes exactly.
 	isLit := func(re *syntax.Regexp) bool {
-		return re.Op == syntax.OpLiteral
+		return re.Op == syntax.OpLiteral && re.Flags&syntax.FoldCase == 0
 	}
 	// ^
 	isBegin := func(re *syntax.Regexp) bool {
@@ -38,7 +40,7 @@ func compileOptimized(s string, re *syntax.Regexp) Pattern {
 	// more often and optimize those as well.
 
 	// lit => strings.Contains($input, lit)
-	if re.Op == syntax.OpLiteral {
+	if isLit(re) {
 		return &containsLiteralMatcher{value: newInputValue(string(re.Rune))}
 	}
 
